@@ -62,6 +62,9 @@ type pendingCase struct {
 	res                      *CaseResult
 	lines                    []string
 	iCompile, iRcanon, iFlow int
+	compileWant              string   // canonical text the model's compile must equal (from-scratch real dump)
+	update                   bool     // the dump was produced by UPDATE transitions on a live manager
+	replayLines              []string // what a replay file of this case holds
 }
 
 func NewBatch(e *hx.Env, rep *hx.Report, prop string) *Batch {
@@ -69,7 +72,11 @@ func NewBatch(e *hx.Env, rep *hx.Report, prop string) *Batch {
 }
 
 func (bt *Batch) replayAs(p *pendingCase, tag string, extra ...string) string {
-	return bt.e.WriteReplay(bt.prop, "input", p.name+tag, nil, append(append([]string{}, p.res.Lines...), extra...))
+	base := p.res.Lines
+	if p.replayLines != nil {
+		base = p.replayLines
+	}
+	return bt.e.WriteReplay(bt.prop, "input", p.name+tag, nil, append(append([]string{}, base...), extra...))
 }
 
 // Add runs the real manager for the case now and queues the driver lines.
@@ -96,7 +103,25 @@ func (bt *Batch) Add(name string, c *Cluster, ps []NetPol, flows []Flow) *CaseRe
 			What: fmt.Sprintf("full sync of the real policy manager: %s %v", out, derr), Replay: replay()})
 		return res
 	}
+	bt.queue(pc, d, d.Canon(), false, nil)
+	return res
+}
+
+// AddDump queues a case whose dump was produced elsewhere (UPDATE transitions on a live manager): the model's
+// compile of the FINAL cluster must equal compileWant (the from-scratch real dump), the walk runs on d.
+func (bt *Batch) AddDump(name string, c *Cluster, ps []NetPol, flows []Flow, d *Dump, compileWant string,
+	replayLines []string) *CaseResult {
+	res := &CaseResult{Lines: Lines(c, ps), Flows: flows, Sigs: map[string]int{}, SyncState: "ok"}
+	pc := &pendingCase{name: name, c: c, ps: ps, res: res}
+	bt.queue(pc, d, compileWant, true, replayLines)
+	return res
+}
+
+func (bt *Batch) queue(pc *pendingCase, d *Dump, compileWant string, update bool, replayLines []string) {
+	res := pc.res
 	res.Canon = d.Canon()
+	pc.compileWant, pc.update, pc.replayLines = compileWant, update, replayLines
+	flows := res.Flows
 	lines := append([]string{}, res.Lines...)
 	iCompile := len(lines)
 	lines = append(lines, "compile")
@@ -113,7 +138,6 @@ func (bt *Batch) Add(name string, c *Cluster, ps []NetPol, flows []Flow) *CaseRe
 	if bt.nlines > 20000 {
 		bt.Flush()
 	}
-	return res
 }
 
 // Flush pipes the queued cases to the driver and evaluates them.
@@ -155,9 +179,9 @@ func (bt *Batch) finish(pc *pendingCase, outl []string) {
 		}
 	}
 	rep.Traces++
-	if outl[iCompile] != res.Canon {
+	if outl[iCompile] != pc.compileWant {
 		rep.Disagree = append(rep.Disagree, hx.Disagreement{Where: "compile: installed sets/rules vs model", Index: iCompile,
-			Impl: diffHint(res.Canon, outl[iCompile], true), Model: diffHint(res.Canon, outl[iCompile], false), Replay: replay()})
+			Impl: diffHint(pc.compileWant, outl[iCompile], true), Model: diffHint(pc.compileWant, outl[iCompile], false), Replay: replay()})
 	}
 	if outl[iRcanon] != res.Canon {
 		rep.Disagree = append(rep.Disagree, hx.Disagreement{Where: "dump-parse: driver's reading of the real dump", Index: iRcanon,
@@ -190,7 +214,18 @@ func (bt *Batch) finish(pc *pendingCase, outl []string) {
 		if kv["frag"] == "1" {
 			res.InFrag++
 		}
-		if kv["real"] != kv["model"] {
+		if kv["real"] != kv["model"] && pc.update {
+			// the rules left by the update transitions decide a flow differently from a from-scratch compile
+			sig := "update-verdict-differs-from-scratch"
+			rep.Hit("mismatch:" + sig)
+			res.Sigs[sig]++
+			if !Seen[sig] {
+				Seen[sig] = true
+				rep.Violations = append(rep.Violations, hx.Violation{Signature: sig, What: fmt.Sprintf("flow %s: rules after the "+
+					"update transitions give %s, a from-scratch compile of the final state gives %s", f.Line(), kv["real"], kv["model"]),
+					Replay: replayAs("-"+sig, f.Line())})
+			}
+		} else if kv["real"] != kv["model"] {
 			rep.Disagree = append(rep.Disagree, hx.Disagreement{Where: "walk: real dump vs model compile", Index: iFlow + i,
 				Impl: kv["real"], Model: kv["model"], Replay: replay(f.Line())})
 		}
